@@ -1,6 +1,6 @@
 #!/bin/bash
 # usage: tools/coqmake.sh [targets...]   e.g. tools/coqmake.sh Properties/C08.vo Run/C08.vo
-# Serialised (flock) full .vo build of the given targets (all files when none given).
+# Serialised (flock) full .vo build of the given targets and exactly their dependencies (see coqbuild.py).
 cd "$(dirname "$0")/.."
 mkdir -p build
-exec flock build/coq.lock bash -c 'tools/mkcoq.sh && timeout 3000 make -C coq -j16 "$@" 2>&1 | grep -v "^make\[" | tail -60; exit ${PIPESTATUS[0]}' _ "$@"
+exec flock build/coq.lock timeout 3000 python3 tools/coqbuild.py "$@"
